@@ -25,7 +25,7 @@ BagEq(a, b) == Len(a) = Len(b) /\ (a = b \/ (ToSet(a) = ToSet(b) /\ (Cardinality
 \* a triangle up to rotation (winding kept): smallest corner first
 Canon(t) == IF t[1] <= t[2] /\ t[1] <= t[3] THEN t ELSE IF t[2] <= t[1] /\ t[2] <= t[3] THEN <<t[2], t[3], t[1]>> ELSE <<t[3], t[1], t[2]>>
 CanonSeq(T) == [k \in 1..Len(T) |-> Canon(T[k])]
-AttrNames == {"uvs", "normals", "tangents", "bitangents", "colors", "eye"}
+AttrNames == {"uvs", "normals", "tangents", "bitangents", "colors", "eye", "uvsMore"}
 
 (* ---------------- index validity / counters (C09) ---------------- *)
 PartIdxLimit(t, p) == IF t.mapped THEN Len(p.vmap) ELSE t.nv
